@@ -4,13 +4,17 @@ CONFIG = {
     "lean_modules": ["SA.Props.C05"],
     "level_text": "Theorems C05_verify_on_unless_insecure / C05_expected_name / C05_client_cert_required / "
                   "C05_auth_sound / C05_auth_sound_server / C05_auth_complete / C05_udp_secret_symmetric / "
-                  "C05_udp_fail_closed / C05_udp_admits_same_secret proved in Lean for every option set, every "
+                  "C05_udp_fail_closed / C05_udp_admits_same_secret, and for histories of attempts through one "
+                  "certificate manager C05_history_independent / C05_history_config / C05_history_auth_sound / "
+                  "C05_history_auth_complete (attempt k of any fail-over walk or reconnect sequence hands crypto/tls, "
+                  "and is established, exactly as the attempt made alone), proved in Lean for every option set, every "
                   "well-formed host:port, every upstream kind and every x509 oracle, over an executable model of "
                   "cert.go, startTls, the upstream kinds and the UDP key derivation whose decisive shapes (guard "
-                  "polarity, InsecureSkipVerify sites, ServerName expressions, pbkdf2 argument lists) are "
-                  "regenerated from the source on every run; the model is tied to the code by comparing every "
-                  "field of the real tls.Config on enumerated option classes and by an end-to-end certificate "
-                  "matrix on the real servers/upstreams.",
+                  "polarity, InsecureSkipVerify sites, ServerName expressions, pbkdf2 argument lists, whether GetTlsConfig hands out "
+                  "a new *tls.Config per call) are regenerated from the source on every run; the model is tied to the code by comparing every "
+                  "field of the real tls.Config on enumerated option classes by an end-to-end certificate "
+                  "matrix on the real servers/upstreams, and by multi-attempt histories (real Upstreams fail-over walk, "
+                  "connect/disconnect/connect, mixed upstream kinds) through one real cert.ClientConfig.",
     "level_note": "Partial on crypto: crypto/tls and crypto/x509 (chain building, expiry, name matching, the meaning "
                   "of InsecureSkipVerify and ClientAuth) are a universally quantified contract record in the "
                   "theorems, exercised but not verified by the matrix (5 server certificates x 3 client "
@@ -25,7 +29,8 @@ CONFIG = {
     "technique": "Lean 4 proof (decision logic stated outright over an executable model parameterised by regenerated "
                  "source facts) + model/code differential correspondence + end-to-end certificate matrix",
     "components": [{"name": "tlscfg", "timeout": {"quick": 300, "thorough": 900}},
-                   {"name": "authmatrix", "timeout": {"quick": 900, "thorough": 2400}}],
+                   {"name": "authmatrix", "timeout": {"quick": 900, "thorough": 2400}},
+                   {"name": "tlshist", "timeout": {"quick": 900, "thorough": 2400}}],
     "rule": "tlscfg: real Config/ClientConfig/ServerConfig.GetTlsConfig on every single-field variation of three base "
             "configurations (cert file 5 x cert 4 x key file 6 x key 7 x password 3 x CA file 6 x CA 7 classes, both "
             "flags, 3 kinds), all pairs key x password, key file x key, CA file x CA, cert file x cert, plus 1500 "
@@ -37,15 +42,22 @@ CONFIG = {
             "expired} x insecure x client certificate {none, good CA, foreign CA} x require-client-cert, full with "
             "both CAs configured, CA-absent variants sampled 1/4 (quick) or full (thorough); a cell is established "
             "iff 16 bytes make the round trip to a TCP echo target behind a server channel; refused cells must "
-            "deliver 0 bytes.  non-trivial = the config loaded / the session was established; distinct = distinct op line",
+            "deliver 0 bytes.  tlshist: histories of 2-6 attempts {pipe, tcp, tcp+tls, stdin+tls (+wss thorough)} x host x "
+            "server {dead, good, nameonly, iponly, wronghost, untrusted, expired} through ONE cert.ClientConfig, as a "
+            "fail-over walk (one Upstreams.Connect over the list) and as connect/disconnect/connect; every ordered pair "
+            "of 20 (quick) / 38 (thorough) attempt kinds in both modes plus 150 / 1500 random longer histories with "
+            "random options; per attempt established|refused|skipped and the ServerName / InsecureSkipVerify of the "
+            "config the attempt handed to crypto/tls are compared with the model; monitor = the property per attempt "
+            "for THIS upstream's host name.  non-trivial = the config loaded / the session was established; distinct = distinct op line",
     "trusted_base": COMMON_TB + [
-        "model SA.Model.TlsConfig hand-written; tied by per-field comparison with the real tls.Config and per-cell comparison of the matrix",
-        "go/extract/x_c05.go shape recognition (guard polarity, ServerName derivations, pbkdf2 argument lists)",
+        "model SA.Model.TlsConfig hand-written; tied by per-field comparison with the real tls.Config, per-cell comparison of the matrix and per-attempt comparison of the histories",
+        "go/extract/x_c05.go shape recognition (guard polarity, ServerName derivations, pbkdf2 argument lists, new-object-per-call shape of GetTlsConfig)",
         "crypto/tls, crypto/x509, net.SplitHostPort, net/url Hostname, pbkdf2, aes, kcp: contract only (hypothesis-level record X509, clientAccepts/serverAdmits, splitHostPort/urlHostname models compared with the real functions through startTls)",
     ],
     "assumptions": [
         "crypto/tls verifies chain, validity and ServerName iff InsecureSkipVerify is false, and demands a client certificate chaining to ClientCAs iff ClientAuth = RequireAndVerifyClientCert",
         "upstream addresses are host:port with a non-bracketed host and numeric port (IPv6 literals: checked by evaluation and correspondence, not by the general theorem)",
+        "TLS 1.3 between client and server (a StartTLS upstream's Connect returns before the server has judged the client certificate: modelled in the fail-over walk)",
         "the KDF does not collide on the two passwords compared (C05_udp_admits_same_secret)",
     ],
 }
